@@ -130,7 +130,7 @@ def run(tier):
                 ok = flds.get("clone_fn", (None,))[0] == ARC + "c_clone" and flds.get("drop_fn", (None,))[0] == ARC + "c_drop" \
                     and flds["clone_fn"][1] == ("T",) and flds["drop_fn"][1] == ("T",)
                 ck.ob("A-constructor-stores-both-fns", "cglue/" + p, ok, "%s must store c_clone::<T> and c_drop::<T> next to the pointer: %s" % (p, flds), sample={"fn": p})
-    ck.floor("arc constructors", n_ctor, 2)
+    ck.floor("arc constructors", n_ctor, 1)
     # Clone for CArcSome: instance from the clone slot called with Some(self.instance); both fn pointers copied from self
     cl = fns.get("<cglue::arc::CArcSome<T> as std::clone::Clone>::clone")
     if ck.require(cl is not None, "Clone for CArcSome"):
